@@ -950,6 +950,42 @@ Section Refine.
     destruct (run_ops_refines os (reg0 other_blobs) 0 rst Hi Hr Hw) as (g' & n' & rst' & out' & E & Ro & St).
     rewrite E. intro X. injection X as <- <-. auto.
   Qed.
+
+  (* ---------- the digest-header hypothesis is exactly the failing mechanism ---------- *)
+  (* Without Docker-Content-Digest, a HEAD for a TAG that exists is answered with an error:
+     in every registry state, whatever the manifest. *)
+  Lemma man_resolve_tag_nohdr g n rs rf d mt c :
+    resolve_ref main rs = Some rf -> valid_digest rf = false ->
+    man_lookup (store_of g) rf = Some (d, (mt, c)) -> p_dighdr p = false ->
+    exists t, man_resolve H parse_mt main user_mts S ex0 (g, n) rs = ((g, n + 1), t, RErr EOther).
+  Proof.
+    intros ER Vr L Pd. unfold man_resolve.
+    rewrite ER, hx_head_man, (man_resp_hit true g rf d mt c L). simp.
+    rewrite orb_true_r, Pd. cbn [opt_if]. unfold gen_desc. proj.
+    destruct (parse_mt mt); [rewrite Vr|]; eauto.
+  Qed.
+
+  Theorem resolve_tag_needs_header g n rst rs rf d mt c :
+    resolve_ref main rs = Some rf -> valid_digest rf = false ->
+    man_lookup (store_of g) rf = Some (d, (mt, c)) -> p_dighdr p = false ->
+    snd (run_op' (g, n) rst (OResolve rs)) = RErr EOther /\
+    snd (spec_op' (store_of g) (OResolve rs)) = RDesc (mkDesc mt d (len c)).
+  Proof.
+    intros ER Vr L Pd. cbn [run_op spec_op].
+    destruct (man_resolve_tag_nohdr g n rs rf d mt c ER Vr L Pd) as [t E]. rewrite E, ER, L. split; reflexivity.
+  Qed.
+
+  Theorem fetchref_tag_needs_header g n rst rs rf d mt c :
+    resolve_ref main rs = Some rf -> valid_digest rf = false ->
+    man_lookup (store_of g) rf = Some (d, (mt, c)) -> p_dighdr p = false -> p_clen p = false ->
+    snd (run_op' (g, n) rst (OFetchRef rs)) = RErr EOther /\
+    snd (spec_op' (store_of g) (OFetchRef rs)) = RDescBytes (mkDesc mt d (len c)) c.
+  Proof.
+    intros ER Vr L Pd Pc. cbn [run_op spec_op]. rewrite ER, L. split; [|reflexivity].
+    unfold man_fetchref. rewrite ER, hx_get_man, (man_resp_hit false g rf d mt c L). simp.
+    rewrite orb_false_r, Pc. cbn [opt_if].
+    destruct (man_resolve_tag_nohdr g (n + 1) rs rf d mt c ER Vr L Pd) as [t E]. rewrite E. reflexivity.
+  Qed.
 End Refine.
 
 (* ---------- the registry model (also with one corrupted response) meets [loc_ok] ---------- *)
@@ -1053,3 +1089,57 @@ Proof.
            end; auto.
   all: try (right; split; [reflexivity|]; eexists; split; [reflexivity|discriminate]).
 Qed.
+
+(* ---------- every capability profile is covered: a computation over all 32 ---------- *)
+Definition all_profiles : list profile :=
+  flat_map (fun a => flat_map (fun b0 => flat_map (fun c => flat_map (fun d => map (fun e => mkProfile a b0 c d e)
+    [false; true]) [false; true]) [false; true]) [false; true]) [false; true].
+
+Definition desc_eqb (x y : desc) : bool :=
+  str_eqb (d_mt x) (d_mt y) && str_eqb (d_dg x) (d_dg y) && (d_sz x =? d_sz y).
+Fixpoint descs_eqb (x y : list desc) : bool :=
+  match x, y with
+  | [], [] => true
+  | a :: x', c :: y' => desc_eqb a c && descs_eqb x' y'
+  | _, _ => false
+  end.
+Definition result_eqb (x y : result) : bool :=
+  match x, y with
+  | ROk, ROk => true
+  | RBool a, RBool c => Bool.eqb a c
+  | RDesc a, RDesc c => desc_eqb a c
+  | RBytes a, RBytes c => str_eqb a c
+  | RDescBytes a a', RDescBytes c c' => desc_eqb a c && str_eqb a' c'
+  | RDescs a, RDescs c => descs_eqb a c
+  | RErr ENotFound, RErr ENotFound | RErr EInvalidRef, RErr EInvalidRef | RErr EOther, RErr EOther => true
+  | _, _ => false
+  end.
+Fixpoint results_eqb (x y : list result) : bool :=
+  match x, y with
+  | [], [] => true
+  | a :: x', c :: y' => result_eqb a c && results_eqb x' y'
+  | _, _ => false
+  end.
+
+(* the history of the non-vacuity example, with a tag resolved by HEAD only where the
+   hypothesis of C13_refines_store_partial admits it; everything else in every profile *)
+Definition cover_ops (p : profile) : list op :=
+  [OPushRef w_desc w_content (b "v1")]
+  ++ (if p_dighdr p then [OResolve (b "v1")] else [OResolve zero_digest])
+  ++ (if p_clen p || p_dighdr p then [OFetchRef (b "v1")] else [OFetchRef zero_digest])
+  ++ [OFetch w_desc; OTag w_desc (b "v2"); OExists w_desc; OMount ex_bdesc None; OMount ex_bdesc (Some ex_blob);
+      OFetch ex_bdesc; OBlobResolve zero_digest; OBlobFetchRef zero_digest; OPush ex_bdesc ex_blob]
+  ++ (if p_referrers p then [OPreds w_desc; OPushRef ex_rdesc ex_ref (b "r1"); OPreds w_desc] else [])
+  ++ [ODelete w_desc; OResolve (b "bad!"); ODelete ex_bdesc; OExists ex_bdesc].
+
+Definition covered (p : profile) (rst : rstate) : bool :=
+  results_eqb
+    (map snd (snd (run_history w_H (fun s => Some s) ex_subject (b "app") (b "src") [] p None
+                               [(zero_digest, ex_blob)] rst (cover_ops p))))
+    (snd (spec_run w_H ex_subject (b "app") [] (mkStore [] [] [] [(zero_digest, ex_blob)]) (cover_ops p))).
+
+Lemma all_profiles_covered :
+  length all_profiles = 32%nat /\
+  forallb (fun p => covered p RSUnknown && covered p RSSupported
+                    && (p_referrers p || covered p RSUnsupported)) all_profiles = true.
+Proof. vm_compute. split; reflexivity. Qed.
